@@ -668,6 +668,14 @@ func (ev *Evaluator) instr(env map[ssa.Value]Val, in ssa.Value) (Val, error) {
 				}
 			}
 		}
+		// element of a modelled slice / string with a constant index
+		if sv, ok := x.(*SliceV); ok {
+			if c, ok := idx.(Const); ok && c.V != nil {
+				if i, exact := constant.Int64Val(c.V); exact && i >= 0 && i < int64(len(sv.Elems)) {
+					return sv.Elems[i].V, nil
+				}
+			}
+		}
 		// element of an array value with a constant index
 		if av, ok := x.(*ArrayV); ok {
 			if c, ok := idx.(Const); ok && c.V != nil {
